@@ -109,6 +109,16 @@ func govPrefix(w *harness.World, id governance.ProposalID, typ governance.Propos
 	return out
 }
 
+// PrefixUpToFirstVote: a general proposal created, funded to its goal and voted YES by V1 (undecided).
+func PrefixUpToFirstVote(w *harness.World, id governance.ProposalID) []harness.BlockSpec {
+	return govPrefix(w, id, tGeneral, "", stVote2)
+}
+
+// SecondYesVote is V2's YES vote, which decides the proposal of PrefixUpToFirstVote.
+func SecondYesVote(w *harness.World, id governance.ProposalID) *harness.TxSpec {
+	return govSteps(w, id, tGeneral, "")[stVote2]
+}
+
 func govScenario(kind action.Type, note string, typ governance.ProposalType, cfg string, upto stage,
 	extra func(w *harness.World, id governance.ProposalID) []harness.BlockSpec,
 	target func(w *harness.World, id governance.ProposalID) *harness.TxSpec, after int) *harness.Scenario {
